@@ -29,8 +29,16 @@ pub enum Ty {
 pub enum Generic {
     Var(String),
     Pack(String),
+    /// `P... = default` (type declarations only)
+    PackDefault(String, PackDefault),
     /// `T = default` (type declarations only)
     VarDefault(String, Ty),
+}
+
+#[derive(Clone, Debug, PartialEq)]
+pub enum PackDefault {
+    Pack(TyPack),
+    Var(TyVar),
 }
 
 #[derive(Clone, Debug, PartialEq)]
@@ -66,6 +74,8 @@ pub enum TyEntry {
     Prop(String, Ty),
     Literal(Vec<u8>, Ty),
     Indexer(Ty, Ty),
+    /// `read` (true) / `write` (false) modifier on an entry
+    Mod(bool, Box<TyEntry>),
 }
 
 /// types of a function's signature
@@ -77,6 +87,8 @@ pub struct Sig {
     /// type of `...` (a type or a generic pack)
     pub variadic_type: Option<TyVar>,
     pub ret: Option<TyRet>,
+    /// `@name` attributes in front of the function
+    pub attrs: Vec<String>,
 }
 
 impl Sig {
@@ -85,6 +97,7 @@ impl Sig {
             && self.param_types.iter().all(|t| t.is_none())
             && self.variadic_type.is_none()
             && self.ret.is_none()
+            && self.attrs.is_empty()
     }
 }
 
@@ -101,7 +114,7 @@ fn to_variadic_argument(v: &TyVar) -> n::VariadicArgumentType {
     }
 }
 
-fn to_pack(p: &TyPack) -> n::TypePack {
+pub fn to_pack(p: &TyPack) -> n::TypePack {
     let mut pack = n::TypePack::default();
     for t in &p.types {
         pack = pack.with_type(to_type(t));
@@ -184,19 +197,39 @@ pub fn to_type(t: &Ty) -> n::Type {
         Ty::Table(entries) => {
             let mut table = n::TableType::default();
             for e in entries {
+                let (modifier, e) = match e {
+                    TyEntry::Mod(read, inner) => (
+                        Some(if *read { n::TablePropertyModifier::Read } else { n::TablePropertyModifier::Write }),
+                        &**inner,
+                    ),
+                    other => (None, other),
+                };
                 match e {
                     TyEntry::Prop(name, t) => {
-                        table.push_property(n::TablePropertyType::new(name.as_str(), to_type(t)));
+                        let mut p = n::TablePropertyType::new(name.as_str(), to_type(t));
+                        if let Some(m) = modifier {
+                            p = p.with_modifier(m);
+                        }
+                        table.push_property(p);
                     }
                     TyEntry::Literal(s, t) => {
-                        table.push_property(n::TableLiteralPropertyType::new(
+                        let mut p = n::TableLiteralPropertyType::new(
                             n::StringType::from_value(String::from_utf8_lossy(s).into_owned()),
                             to_type(t),
-                        ));
+                        );
+                        if let Some(m) = modifier {
+                            p = p.with_modifier(m);
+                        }
+                        table.push_property(p);
                     }
                     TyEntry::Indexer(k, v) => {
-                        table.set_indexer_type(n::TableIndexerType::new(to_type(k), to_type(v)));
+                        let mut p = n::TableIndexerType::new(to_type(k), to_type(v));
+                        if let Some(m) = modifier {
+                            p = p.with_modifier(m);
+                        }
+                        table.set_indexer_type(p);
                     }
+                    TyEntry::Mod(..) => {}
                 }
             }
             table.into()
@@ -235,7 +268,7 @@ fn from_variadic_argument(v: &n::VariadicArgumentType) -> Result<TyVar, String> 
     })
 }
 
-fn from_pack(p: &n::TypePack) -> Result<TyPack, String> {
+pub fn from_pack(p: &n::TypePack) -> Result<TyPack, String> {
     Ok(TyPack {
         types: p.iter().map(from_type).collect::<Result<_, _>>()?,
         variadic: match p.get_variadic_type() {
@@ -306,10 +339,12 @@ pub fn from_type(t: &n::Type) -> Result<Ty, String> {
             table
                 .iter_entries()
                 .map(|e| {
-                    if e.get_modifier().is_some() {
-                        return Err("table property modifier".to_owned());
-                    }
-                    Ok(match e {
+                    let modifier = e.get_modifier().map(|m| matches!(m, n::TablePropertyModifier::Read));
+                    let wrap = |entry: TyEntry| match modifier {
+                        Some(read) => TyEntry::Mod(read, Box::new(entry)),
+                        None => entry,
+                    };
+                    Ok::<TyEntry, String>(wrap(match e {
                         n::TableEntryType::Property(p) => {
                             TyEntry::Prop(p.get_identifier().get_name().clone(), from_type(p.get_type())?)
                         }
@@ -319,7 +354,7 @@ pub fn from_type(t: &n::Type) -> Result<Ty, String> {
                         n::TableEntryType::Indexer(i) => {
                             TyEntry::Indexer(from_type(i.get_key_type())?, from_type(i.get_value_type())?)
                         }
-                    })
+                    }))
                 })
                 .collect::<Result<_, _>>()?,
         ),
@@ -384,6 +419,8 @@ pub fn norm_generics(g: &[Generic]) -> Vec<Generic> {
     g.iter()
         .map(|g| match g {
             Generic::VarDefault(n, t) => Generic::VarDefault(n.clone(), norm_ty(t)),
+            Generic::PackDefault(n, PackDefault::Pack(p)) => Generic::PackDefault(n.clone(), PackDefault::Pack(norm_pack(p))),
+            Generic::PackDefault(n, PackDefault::Var(v)) => Generic::PackDefault(n.clone(), PackDefault::Var(norm_var(v))),
             other => other.clone(),
         })
         .collect()
@@ -401,14 +438,7 @@ pub fn norm_ty(t: &Ty) -> Ty {
         Ty::Table(entries) => Ty::Table(
             entries
                 .iter()
-                .map(|e| match e {
-                    TyEntry::Prop(n, t) => TyEntry::Prop(n.clone(), norm_ty(t)),
-                    TyEntry::Literal(s, t) => TyEntry::Literal(s.clone(), norm_ty(t)),
-                    // `["s"]: T` is the one syntax for a string-literal property and for an indexer
-                    // whose key type is the singleton string type: read as the property
-                    TyEntry::Indexer(Ty::Str(s), v) => TyEntry::Literal(s.clone(), norm_ty(v)),
-                    TyEntry::Indexer(k, v) => TyEntry::Indexer(operand(k), norm_ty(v)),
-                })
+                .map(|e| norm_entry(e))
                 .collect(),
         ),
         Ty::TypeOf(e) => Ty::TypeOf(Box::new(norm_expr(e))),
@@ -425,12 +455,30 @@ pub fn norm_ty(t: &Ty) -> Ty {
     }
 }
 
+fn norm_entry(e: &TyEntry) -> TyEntry {
+    let operand = |t: &Ty| strip(norm_ty(t));
+    match e {
+        TyEntry::Mod(r, inner) => TyEntry::Mod(*r, Box::new(norm_entry(inner))),
+        TyEntry::Prop(n, t) => TyEntry::Prop(n.clone(), norm_ty(t)),
+        TyEntry::Literal(s, t) => TyEntry::Literal(s.clone(), norm_ty(t)),
+        // `["s"]: T` is the one syntax for a string-literal property and for an indexer whose
+        // key type is the singleton string type: read as the property
+        TyEntry::Indexer(Ty::Str(s), v) => TyEntry::Literal(s.clone(), norm_ty(v)),
+        TyEntry::Indexer(k, v) => TyEntry::Indexer(operand(k), norm_ty(v)),
+    }
+}
+
 pub fn norm_sig(s: &Sig) -> Sig {
     Sig {
         generics: norm_generics(&s.generics),
-        param_types: s.param_types.iter().map(|t| t.as_ref().map(norm_ty)).collect(),
+        param_types: if s.param_types.iter().all(|t| t.is_none()) {
+            Vec::new()
+        } else {
+            s.param_types.iter().map(|t| t.as_ref().map(norm_ty)).collect()
+        },
         variadic_type: s.variadic_type.as_ref().map(norm_var),
         ret: s.ret.as_ref().map(norm_ret),
+        attrs: s.attrs.clone(),
     }
 }
 
@@ -474,11 +522,32 @@ pub fn generics_str(g: &[Generic]) -> String {
                 Generic::Var(n) => n.clone(),
                 Generic::Pack(n) => format!("(pack {})", n),
                 Generic::VarDefault(n, t) => format!("(def {} {})", n, ty_str(t)),
+                Generic::PackDefault(n, PackDefault::Pack(p)) => format!("(packdef {} {})", n, pack_str(p)),
+                Generic::PackDefault(n, PackDefault::Var(v)) => format!("(packdef {} {})", n, var_str(v)),
             })
             .collect::<Vec<_>>()
             .join(" ")
     )
 }
+fn entry_str(e: &TyEntry) -> String {
+    match e {
+        TyEntry::Prop(n, t) => format!("(prop {} {})", n, ty_str(t)),
+        TyEntry::Literal(s, t) => format!("(lit {} {})", hex(s), ty_str(t)),
+        TyEntry::Indexer(k, v) => format!("(indexer {} {})", ty_str(k), ty_str(v)),
+        TyEntry::Mod(read, inner) => format!("(mod {} {})", if *read { "read" } else { "write" }, entry_str(inner)),
+    }
+}
+
+fn to_entry(e: &Sx) -> Option<TyEntry> {
+    match head(e)? {
+        ("prop", [n, t]) => Some(TyEntry::Prop(atom(n)?.to_owned(), to_ty(t)?)),
+        ("lit", [v, t]) => Some(TyEntry::Literal(unhex(atom(v)?)?, to_ty(t)?)),
+        ("indexer", [k, v]) => Some(TyEntry::Indexer(to_ty(k)?, to_ty(v)?)),
+        ("mod", [m, inner]) => Some(TyEntry::Mod(atom(m)? == "read", Box::new(to_entry(inner)?))),
+        _ => None,
+    }
+}
+
 pub fn ty_str(t: &Ty) -> String {
     match t {
         Ty::Name(n, a) => format!("(tname {}{})", n, args_str(a)),
@@ -490,14 +559,7 @@ pub fn ty_str(t: &Ty) -> String {
         Ty::Array(e) => format!("(tarray {})", ty_str(e)),
         Ty::Table(entries) => format!(
             "(ttable{})",
-            entries
-                .iter()
-                .map(|e| match e {
-                    TyEntry::Prop(n, t) => format!(" (prop {} {})", n, ty_str(t)),
-                    TyEntry::Literal(s, t) => format!(" (lit {} {})", hex(s), ty_str(t)),
-                    TyEntry::Indexer(k, v) => format!(" (indexer {} {})", ty_str(k), ty_str(v)),
-                })
-                .collect::<String>()
+            entries.iter().map(|e| format!(" {}", entry_str(e))).collect::<String>()
         ),
         Ty::TypeOf(e) => format!("(ttypeof {})", super::sexp::ex_str(e)),
         Ty::Paren(t) => format!("(tparen {})", ty_str(t)),
@@ -546,7 +608,7 @@ pub fn to_var(s: &Sx) -> Option<TyVar> {
 fn to_opt_var(s: &Sx) -> Option<Option<TyVar>> {
     if atom(s) == Some("-") { Some(None) } else { to_var(s).map(Some) }
 }
-fn to_pack_sx(s: &Sx) -> Option<TyPack> {
+pub fn to_pack_sx(s: &Sx) -> Option<TyPack> {
     match head(s)? {
         ("tpack", [types, v]) => Some(TyPack {
             types: list(types)?.iter().map(to_ty).collect::<Option<_>>()?,
@@ -588,6 +650,13 @@ pub fn to_generics(s: &Sx) -> Option<Vec<Generic>> {
             match head(g)? {
                 ("pack", [n]) => Some(Generic::Pack(atom(n)?.to_owned())),
                 ("def", [n, t]) => Some(Generic::VarDefault(atom(n)?.to_owned(), to_ty(t)?)),
+                ("packdef", [n, d]) => Some(Generic::PackDefault(
+                    atom(n)?.to_owned(),
+                    match to_pack_sx(d) {
+                        Some(p) => PackDefault::Pack(p),
+                        None => PackDefault::Var(to_var(d)?),
+                    },
+                )),
                 _ => None,
             }
         })
@@ -609,15 +678,7 @@ pub fn to_ty(s: &Sx) -> Option<Ty> {
         ("tstr", [v]) => Ty::Str(unhex(atom(v)?)?),
         ("tarray", [t]) => Ty::Array(Box::new(to_ty(t)?)),
         ("ttable", entries) => Ty::Table(
-            entries
-                .iter()
-                .map(|e| match head(e)? {
-                    ("prop", [n, t]) => Some(TyEntry::Prop(atom(n)?.to_owned(), to_ty(t)?)),
-                    ("lit", [v, t]) => Some(TyEntry::Literal(unhex(atom(v)?)?, to_ty(t)?)),
-                    ("indexer", [k, v]) => Some(TyEntry::Indexer(to_ty(k)?, to_ty(v)?)),
-                    _ => None,
-                })
-                .collect::<Option<_>>()?,
+            entries.iter().map(to_entry).collect::<Option<_>>()?,
         ),
         ("ttypeof", [e]) => Ty::TypeOf(Box::new(super::sexp::to_ex(e)?)),
         ("tparen", [t]) => Ty::Paren(Box::new(to_ty(t)?)),
@@ -681,6 +742,10 @@ pub fn gen_ty(rng: &mut Rng, d: usize) -> Ty {
             if rng.chance(1, 3) {
                 entries.push(TyEntry::Indexer(gen_ty(rng, d1), gen_ty(rng, d1)));
             }
+            let entries = entries
+                .into_iter()
+                .map(|e| if rng.chance(1, 5) { TyEntry::Mod(rng.chance(1, 2), Box::new(e)) } else { e })
+                .collect();
             Ty::Table(entries)
         }
         8 => Ty::TypeOf(Box::new(Ex::Id("a".into()))),
